@@ -63,6 +63,11 @@ type StubIndexer struct {
 	Owner *StubInformer
 	// Items is the harness-owned "cache" content.
 	Items []*unstructured.Unstructured
+	// AfterSnapshot, when set, runs ONCE right after the next read of the cache
+	// content (List of the store or of a lister over it) took its snapshot: the
+	// harness plays "the informer stores and announces an object at this very
+	// moment", however the code under test reads its cache.
+	AfterSnapshot func()
 }
 
 type stubRegistration struct{}
@@ -238,8 +243,14 @@ func (x *StubIndexer) List() []interface{} {
 
 func (x *StubIndexer) snapshot() []*unstructured.Unstructured {
 	x.mu.Lock()
-	defer x.mu.Unlock()
-	return append([]*unstructured.Unstructured(nil), x.Items...)
+	items := append([]*unstructured.Unstructured(nil), x.Items...)
+	f := x.AfterSnapshot
+	x.AfterSnapshot = nil
+	x.mu.Unlock()
+	if f != nil {
+		f()
+	}
+	return items
 }
 
 // CompleteList plays "the initial LIST arrives": the cache content appears and
